@@ -611,13 +611,14 @@ func c16CSSNumbers(b []byte) (nums []string, hasExp bool, initial int) {
 // ---------- JS ----------
 
 type c16JSInfo struct {
+	strs   map[string]bool
 	idents                                               map[string]bool
 	nums                                                 []string
 	exp, nullish, optchain, template, catch0, shorthand bool
 }
 
 func c16ScanJS(b []byte) c16JSInfo {
-	f := c16JSInfo{idents: map[string]bool{}}
+	f := c16JSInfo{idents: map[string]bool{}, strs: map[string]bool{}}
 	l := pjs.NewLexer(parse.NewInputBytes(append([]byte(nil), b...)))
 	type tok struct {
 		tt   pjs.TokenType
@@ -655,6 +656,10 @@ func c16ScanJS(b []byte) c16JSInfo {
 			next = toks[i+1]
 		}
 		switch t.tt {
+		case pjs.StringToken:
+			if len(t.data) >= 2 { // `o["a"]` may be written `o.a`, `{"a":1}` as `{a:1}`
+				f.strs[t.data[1:len(t.data)-1]] = true
+			}
 		case pjs.IdentifierToken:
 			f.idents[t.data] = true
 			if len(braces) > 0 && braces[len(braces)-1] && (prev.tt == pjs.OpenBraceToken || prev.tt == pjs.CommaToken) && (next.tt == pjs.CommaToken || next.tt == pjs.CloseBraceToken) {
@@ -719,7 +724,7 @@ func c16OracleVersion(in, out c16JSInfo, ver int, k3open bool) (string, bool) {
 func c16OracleKeepVarNames(in, out c16JSInfo) string {
 	var bad []string
 	for id := range out.idents {
-		if !in.idents[id] {
+		if !in.idents[id] && !in.strs[id] {
 			bad = append(bad, id)
 		}
 	}
@@ -738,6 +743,13 @@ var c16NumPrefix = regexp.MustCompile(`^[+-]?([0-9]+\.?[0-9]*|\.[0-9]+)([eE][+-]
 
 // comments and numeric attribute lexemes (element path + attribute name, number without its unit)
 func c16ScanXML(b []byte) (comments []string, nums map[string]string, ok bool) {
+	comments, nums, _, ok = c16ScanXMLn(b)
+	return
+}
+
+// numeric attributes are keyed by the element's id attribute if it has one (`id:…@attr`), else by its path and ordinal
+// (`path#n@attr`, comparable only when no element was removed); elems = number of elements
+func c16ScanXMLn(b []byte) (comments []string, nums map[string]string, elems int, ok bool) {
 	d := xml.NewDecoder(bytes.NewReader(b))
 	d.Strict = false
 	nums = map[string]string{}
@@ -746,7 +758,7 @@ func c16ScanXML(b []byte) (comments []string, nums map[string]string, ok bool) {
 	for {
 		t, err := d.Token()
 		if err != nil {
-			return comments, nums, err.Error() == "EOF"
+			return comments, nums, idx, err.Error() == "EOF"
 		}
 		switch e := t.(type) {
 		case xml.Comment:
@@ -754,6 +766,12 @@ func c16ScanXML(b []byte) (comments []string, nums map[string]string, ok bool) {
 		case xml.StartElement:
 			idx++
 			path = append(path, e.Name.Local)
+			key := fmt.Sprintf("%s#%d", strings.Join(path, "/"), idx)
+			for _, a := range e.Attr {
+				if a.Name.Local == "id" && a.Name.Space == "" {
+					key = "id:" + a.Value
+				}
+			}
 			for _, a := range e.Attr {
 				if c16SVGNumAttrs[a.Name.Local] && a.Name.Space == "" {
 					v := strings.TrimSpace(a.Value)
@@ -762,7 +780,7 @@ func c16ScanXML(b []byte) (comments []string, nums map[string]string, ok bool) {
 						if (unit == "e" || unit == "E") || (len(unit) > 0 && (unit[0] == 'e' || unit[0] == 'E')) {
 							continue // `1em`, `1e`: where the number ends depends on the reader
 						}
-						nums[fmt.Sprintf("%s#%d@%s", strings.Join(path, "/"), idx, a.Name.Local)] = m
+						nums[key+"@"+a.Name.Local] = m
 					}
 				}
 			}
@@ -775,8 +793,8 @@ func c16ScanXML(b []byte) (comments []string, nums map[string]string, ok bool) {
 }
 
 func c16OracleSVGPrecision(in, out []byte, p int) string {
-	_, a, ok1 := c16ScanXML(in)
-	_, b, ok2 := c16ScanXML(out)
+	_, a, na, ok1 := c16ScanXMLn(in)
+	_, b, nb, ok2 := c16ScanXMLn(out)
 	if !ok1 || !ok2 || len(a) == 0 {
 		return c16Skip
 	}
@@ -788,8 +806,8 @@ func c16OracleSVGPrecision(in, out []byte, p int) string {
 	judged := 0
 	for _, k := range ks {
 		w, ok := b[k]
-		if !ok {
-			continue // attribute dropped or element removed (metadata, default values): other properties
+		if !ok || (na != nb && !strings.HasPrefix(k, "id:")) {
+			continue // attribute dropped or elements removed (metadata, default values): other properties
 		}
 		okv, j := c16NumOK(a[k], w, p)
 		if !j {
